@@ -386,6 +386,9 @@ def run(ctx):
                        "200 operations over up to 8 secrets x 5 transports x 4 phantoms, with time steps aimed at the 10 min / 6 h "
                        "limits +- 1 s")
     ctx.coq_props()
+    rc, out = ctx.coq_make(["C08/Examples.vo", "C08/Legacy.vo"])
+    if rc != 0:
+        ctx.broken("examples", "non-vacuity examples / legacy witness no longer check: " + out[-600:])
     cases, n_fixed = gen_cases(ctx)
     rc, out, res = ctx.go_inpkg(".", GO_PKG, GO_FILES, "^TestVerifC08Registry$", cases, tags=None, timeout=900)
     if res is None or len(res) != len(cases):
